@@ -91,8 +91,20 @@ def generate(run_seed: int, tier: str, *, faults: bool) -> dict:
     num_vars = [v for v in vars_used if u["cols"][v]["kind"] in ("float", "int")]
 
     f2 = None
+    train2 = None
     if not structured and rng.random() < 0.35:
         f2 = world.gen_formula(rng, u, rich=rich, structured_p=0.0, max_terms=2, force_ticked=False)
+        shared = [a for a in f["atoms"] if a.get("stateful") and not a.get("ctx")]
+        if shared and isinstance(f2["spec"], str) and rng.random() < 0.7:
+            # the two formulas have a factor in common (so the two fits record state under the same key) ...
+            a_ = rng.choice(shared)
+            f2["spec"] += " + " + a_["expr"]
+            f2["atoms"].append(a_)
+        if rng.random() < 0.6:
+            # ... and are fitted on different rows
+            k2 = rng.randint(min(8, n), n)
+            train2 = sorted(set(rng.sample(range(n), k2)) | set(range(min(6, n))))
+            rng.shuffle(train2)
     ops: list[dict] = []
     handles = [{"id": 0, "kind": "root"}]
     nops = rng.randint(6, 22)
@@ -207,11 +219,17 @@ def generate(run_seed: int, tier: str, *, faults: bool) -> dict:
         used = list(dict.fromkeys(used + world.variables_of(f2)))
         if train_keep is not None:
             train_keep = used
-        dom = [i for i in dom if i in set(world.training_domain(u, f2, train))]
+        if train2 is not None:
+            mb2 = sorted({v for a in f2["atoms"] if a.get("mean_based") for v in a["vars"]})
+            if mb2:
+                nullrow2 = world.universe_frame(u)[mb2].isna().any(axis=1).to_numpy()
+                kept2 = [i for i in train2 if not nullrow2[i]]
+                train2 = kept2 if len(kept2) >= 4 else train2
+        dom = [i for i in dom if i in set(world.training_domain(u, f2, train2 if train2 is not None else train))]
         for o in ops:
             if "ids" in o:
                 o["ids"] = [i for i in o["ids"] if i in set(dom)]
-    return {"universe": u, "formula": f, "formula2": f2, "train": train, "dom": dom, "container": container, "train_keep": train_keep, "used_vars": used,
+    return {"universe": u, "formula": f, "formula2": f2, "train2": train2, "train": train, "dom": dom, "container": container, "train_keep": train_keep, "used_vars": used,
             "train_index": core.weighted(rng, [("rid", 3), ("range", 2), ("str", 1)]), "opts": opts,
             "np_seed": rng.getrandbits(31), "ops": ops, "faults_enabled": faults}
 
@@ -319,6 +337,33 @@ class SubsetMismatch(Exception):
     pass
 
 
+class ComboRef:
+    """Reference for specs of SEPARATE fits that the caller put into one ModelSpecs container: every part must replay its
+    own recorded state, i.e. give the rows its own spec gives when used alone."""
+
+    def __init__(self, parts: list):
+        self.parts = parts
+        self.calls = 0
+
+    def present(self, rid: int) -> bool:
+        for _, ref in self.parts:
+            b = ref.block(rid)
+            if isinstance(b, Exception) or b[0][1]["arr"].shape[0] != 1:
+                return False
+        return True
+
+    def block(self, rid: int) -> Any:
+        out = []
+        for key, ref in self.parts:
+            b = ref.block(rid)
+            if isinstance(b, Exception):
+                return b
+            out.append(((key,), b[0][1]))
+        return out
+
+    expected = None  # bound below
+
+
 class Ref:
     """Row-level reference model built from one-row calls on a private clone."""
 
@@ -382,6 +427,9 @@ class Ref:
                 arrs = [a.astype(object) for a in arrs]
             out.append((path, {"names": m0["names"], "arr": np.vstack(arrs) if arrs else np.empty((0, width)), "present": [b[li][1]["arr"].shape[0] for b in blocks]}))
         return out
+
+
+ComboRef.expected = Ref.expected
 
 
 def bump(stats: dict, kind: str, key: str, n: int = 1) -> None:
@@ -461,11 +509,13 @@ def execute(scenario: dict, env: Any, *, prop: str) -> dict:
             try:
                 with warnings.catch_warnings():
                     warnings.simplefilter("ignore")
-                    mm1 = model_matrix(world.spec_to_python(sc["formula2"]["spec"]), tframe, context=world.user_context(), **sc["opts"])
+                    tframe2 = frame(sc["train2"], sc["train_index"], keep=sc.get("train_keep")) if sc.get("train2") else tframe
+                    mm1 = model_matrix(world.spec_to_python(sc["formula2"]["spec"]), tframe2, context=world.user_context(), **sc["opts"])
                 c1 = canon(mm1, Structured)
                 if any(m["arr"].dtype == object or not np.all(np.isfinite(m["arr"])) or m["arr"].shape[0] == 0 for _, m in c1):
                     raise ArithmeticError("degenerate second fit")
                 spec1, names1 = mm1.model_spec, [m["names"] for _, m in c1]
+                ref1 = Ref(pickle.loads(pickle.dumps(spec1)), sc, Structured)
             except Exception:  # noqa: BLE001
                 spec1 = None
                 bump(stats, "extra", "degenerate_second_fit")
@@ -534,6 +584,8 @@ def execute(scenario: dict, env: Any, *, prop: str) -> dict:
             if kind == "follow":
                 ids = op["ids"]
                 fault = op.get("fault")
+                if isinstance(h["ref"], ComboRef):
+                    ids = [r for r in ids if h["ref"].present(r)]
                 if not ids:
                     continue
                 if fault is None:
@@ -820,7 +872,8 @@ def execute(scenario: dict, env: Any, *, prop: str) -> dict:
                     clone = pickle.loads(pickle.dumps(combo))
                 except Exception as e:  # noqa: BLE001
                     raise Violation("c04:restart-failed", {"how": "ModelSpecs(a=spec, b=other spec) + pickle", "error": repr(e)[:300]})
-                handles[op["new"]] = {"spec": combo, "mm": None, "ref": Ref(clone, sc, Structured), "kind": "combo", "depth": h["depth"] + 1, "born": step,
+                _ = clone
+                handles[op["new"]] = {"spec": combo, "mm": None, "ref": ComboRef([("a", h["ref"]), ("b", ref1)]), "kind": "combo", "depth": h["depth"] + 1, "born": step,
                                       "names": [h["names"][0], names1[0]], "shares_state_with": op["h"]}
                 last_touch[op["new"]] = ["restart"]
                 sig.append(["combo"])
@@ -875,8 +928,12 @@ def execute(scenario: dict, env: Any, *, prop: str) -> dict:
         dom = sc["dom"]
         if dom:
             seed_np(10**6)
+            full_dom = dom
             for hid in sorted(handles):
                 h = handles[hid]
+                dom = [r for r in full_dom if h["ref"].present(r)] if isinstance(h["ref"], ComboRef) else full_dom
+                if not dom:
+                    continue
                 data = frame(dom, "rid")
                 with warnings.catch_warnings():
                     warnings.simplefilter("ignore")
